@@ -406,13 +406,11 @@ class Formatter:
             lambda m: self._replace_tokens(m.group(0), loaded_locale), escaped_fmt
         )
 
-        if not re.fullmatch(pattern, time):
+        match = re.fullmatch(pattern, time)
+        if not match:
             raise ValueError(f"String does not match format {fmt}")
 
-        def _get_parsed_values(m: Match[str]) -> Any:
-            return self._get_parsed_values(m, parsed, loaded_locale, now)
-
-        re.sub(pattern, _get_parsed_values, time)
+        self._get_parsed_values(match, parsed, loaded_locale, now)
 
         return self._check_parsed(parsed, now)
 
